@@ -29,12 +29,17 @@ pub struct ObsShared {
     pub resets: u64,
     /// (pos, finished) of the state handed to the last `reset` call
     pub last_reset_state: Option<(u64, bool)>,
+    /// generation of the tracker instance that was written / ticked last
+    pub last_write_gen: u64,
+    pub last_tick_gen: u64,
 }
 
 #[derive(Clone)]
 pub struct Obs {
     pub shared: Arc<StdMutex<ObsShared>>,
     pub text: String,
+    /// which instance this is (a style set later registers a tracker of a later generation)
+    pub gen: u64,
 }
 
 /// how the custom key hands its text to the formatter: 0 = one write_str, 1 = write_char per
@@ -62,7 +67,9 @@ impl ProgressTracker for Obs {
         Box::new(self.clone())
     }
     fn tick(&mut self, _state: &ProgressState, _now: Instant) {
-        self.shared.lock().unwrap().ticks += 1;
+        let mut sh = self.shared.lock().unwrap();
+        sh.ticks += 1;
+        sh.last_tick_gen = self.gen;
     }
     fn reset(&mut self, state: &ProgressState, _now: Instant) {
         let mut sh = self.shared.lock().unwrap();
@@ -74,6 +81,7 @@ impl ProgressTracker for Obs {
             let mut sh = self.shared.lock().unwrap();
             let f = sh.term.as_ref().map_or(0, |t| t.flushes());
             sh.writes.push((state.pos(), state.len(), state.is_finished()));
+            sh.last_write_gen = self.gen;
             sh.write_flushes.push(f);
         }
         // the write mode is encoded in the first byte of the shared ticks' parity-free field: keep
@@ -102,6 +110,7 @@ pub fn make_style(template: &str, obs: &Arc<StdMutex<ObsShared>>, obs_text: &str
                 Obs {
                     shared: obs.clone(),
                     text: obs_text.to_string(),
+                    gen: 0,
                 },
             )
         })
@@ -229,6 +238,9 @@ impl Stage {
         }
         if std::env::var_os("VERIF_TRACE").is_some() {
             term.lock().keep_calls = true;
+        }
+        if sc.c("buffered") == 1 && sc.c("pty") != 1 {
+            term.lock().buffered = true;
         }
         let multi = sc.c("multi") == 1;
         let hz = sc.c("hz");
@@ -590,9 +602,8 @@ impl Stage {
                     }
                     "mp_suspend" => mp.suspend(|| {
                         for l in text.lines() {
-                            let _ = term.write_line(l);
+                            term.external_line(l);
                         }
-                        let _ = term.flush();
                     }),
                     "mp_align" => mp.set_alignment(if op.n0() % 2 == 1 {
                         MultiProgressAlignment::Bottom
@@ -774,9 +785,8 @@ impl Stage {
             "println" => pb.println(&text),
             "suspend" => pb.suspend(|| {
                 for l in text.lines() {
-                    let _ = term.write_line(l);
+                    term.external_line(l);
                 }
-                let _ = term.flush();
             }),
             "clone" => {}
             "drop" | "drop_all" => {
